@@ -274,6 +274,31 @@ def run(ctx):
     ctx.ob('C08.R5', 'name:altloc-is-column-17', tag_ok,
            'the alt-loc part is the single alt-loc column of the record', rl.mod,
            conf_defs[0] if conf_defs else rl.fn)
+    # digits and letters name the same conformations: '1'..'9' -> 'A'..'I', blank -> 'A'
+    if conf_defs and alt is not None and isinstance(alt, ast.Name):
+        from sa.consteval import ConstEval, UNKNOWN
+        blk = conf_defs[0]._parent
+        body = getattr(blk, 'body', [])
+        upto = body.index(conf_defs[0]) if conf_defs[0] in body else 0
+        stmts = [st for st in body[:upto] if isinstance(st, ast.If)
+                 and any(isinstance(t, ast.Assign) and norm(t.targets[0]) == alt.id for t in st.body)
+                 and {n.id for n in ast.walk(st.test) if isinstance(n, ast.Name)} <= {alt.id}]
+        want = dict(zip('123456789', 'ABCDEFGHI'))
+        want.update({' ': 'A', 'A': 'A', 'B': 'B', 'Z': 'Z'})
+        got = {}
+        for ch, exp in want.items():
+            ev = ConstEval({alt.id: ch})
+            try:
+                ev.run(stmts)
+                got[ch] = ev.env.get(alt.id, UNKNOWN)
+            except Exception:
+                got[ch] = UNKNOWN
+        bad = {k: got[k] for k in want if got[k] != want[k]}
+        ctx.ob('C08.R5', 'name:digit-tags-are-letters', not bad and len(stmts) >= 1,
+               "alternate-location digits name the same conformations as letters: '1'..'9' -> "
+               "'A'..'I', blank -> 'A', letters unchanged (constant folding of the %d mapping "
+               "statements; wrong: %s)" % (len(stmts), bad), rl.mod,
+               stmts[0] if stmts else conf_defs[0])
     # sorted names come from conformation_sorter
     rp = rl.mod.func('read_pdb')
     ctx.ob('C08.R5', 'names:sorted-with-sorter',
